@@ -39,9 +39,9 @@ ASSUMPTIONS = [
     "in-process simulation clears jaxtyping._import_hook.Typechecker.lookup between runs to mimic a fresh interpreter",
 ]
 
-MODS = ["pa", "pb", "pkg", "pkg.sub"]
+MODS = ["pa", "pb", "pkg", "pkg.sub", "ph"]  # ph: a helper module that the typechecker module itself imports
 BAD = "pbad"  # a module with a syntax error: importing it fails (also under a hook), nothing else may be affected
-FILES = {"pa": "pa.py", "pb": "pb.py", "pkg": "pkg/__init__.py", "pkg.sub": "pkg/sub.py"}
+FILES = {"pa": "pa.py", "pb": "pb.py", "pkg": "pkg/__init__.py", "pkg.sub": "pkg/sub.py", "ph": "ph.py"}
 DEPS = {"pa": ["pb"], "pkg": ["pkg.sub"]}
 
 SPY_SRC = '''
@@ -54,6 +54,7 @@ def _mk(tag):
     return checker
 a = _mk("a")
 b = _mk("b")
+import ph  # the typechecker package has imports of its own (at the bottom: a hooked ph is decorated with a / b)
 '''
 
 
@@ -82,7 +83,23 @@ if spec.get("disabled"):
 sys.path.insert(0, spec["dir"])
 import jaxtyping
 from jaxtyping import install_import_hook
-import vf_spy18
+if spec.get("edit_during"):
+    # the file is saved (by an editor, a sync tool) while this run is importing it: right after its bytes -- source or cached
+    # bytecode -- were read.  This run executes what it read; the NEXT run must notice the newer file.
+    import importlib._bootstrap_external as _be
+    _ed = spec["edit_during"]
+    _orig_get_data = _be.FileLoader.get_data
+    def _get_data(self, path, _done=[]):
+        data = _orig_get_data(self, path)
+        if not _done and os.path.basename(path).split(".")[0] == _ed["stem"] and os.path.dirname(path).rstrip("/").replace("/__pycache__", "") == os.path.dirname(_ed["path"]).rstrip("/"):
+            _done.append(1)
+            with open(_ed["path"], "w") as f:
+                f.write(_ed["source"])
+            os.utime(_ed["path"], (_ed["stamp"], _ed["stamp"]))
+        return data
+    _be.FileLoader.get_data = _get_data
+if not spec.get("lazy_spy"):
+    import vf_spy18   # otherwise the typechecker module is first imported when the first hooked function is decorated
 mgrs = []
 for names, checker in spec["hooks"]:
     mgrs.append(install_import_hook(names, None if checker == "none" else "vf_spy18." + checker))
@@ -98,11 +115,12 @@ for m in spec.get("after", []):
     importlib.import_module(m)
 jaxtyping.config.update("jaxtyping_disable", False)   # observe with checking on: the switch is read per call
 out = {}
-for name in ["pa", "pb", "pkg", "pkg.sub"]:
+spy = sys.modules.get("vf_spy18")
+for name in ["pa", "pb", "pkg", "pkg.sub", "ph"]:
     mod = sys.modules.get(name)
     if mod is None:
         continue
-    tags = sorted({t for (t, mm, q) in vf_spy18.log if mm == name})
+    tags = sorted({t for (t, mm, q) in (spy.log if spy is not None else []) if mm == name})
     try:
         mod.f("not-an-int"); raises = False
     except jaxtyping.TypeCheckError:
@@ -125,7 +143,7 @@ def classify(o):
 def run_subprocess(d, run):
     env = dict(os.environ)
     env.pop("PYTHONDONTWRITEBYTECODE", None)
-    r = subprocess.run([sys.executable, "-W", "ignore", "-c", RUNNER, json.dumps({"dir": d, "hooks": run["hooks"], "order": run["order"], "after": run.get("after", []), "dont_write": run.get("dont_write", False), "disabled": run.get("disabled", False)})],
+    r = subprocess.run([sys.executable, "-W", "ignore", "-c", RUNNER, json.dumps({"dir": d, "hooks": run["hooks"], "order": run["order"], "after": run.get("after", []), "dont_write": run.get("dont_write", False), "disabled": run.get("disabled", False), "lazy_spy": run.get("lazy_spy", False), "edit_during": run.get("_edit_during")})],
                        capture_output=True, text=True, env=env, timeout=300)
     line = [l for l in r.stdout.splitlines() if l.startswith("VF18")]
     if not line:
@@ -139,7 +157,7 @@ def run_inprocess(d, run):
     from jaxtyping._import_hook import Typechecker, _JaxtypingFinder
 
     for name in list(sys.modules):
-        if name.split(".")[0] in ("pa", "pb", "pkg", "vf_spy18", "pbad"):
+        if name.split(".")[0] in ("pa", "pb", "pkg", "vf_spy18", "pbad", "ph"):
             del sys.modules[name]
     sys.meta_path[:] = [f for f in sys.meta_path if not isinstance(f, _JaxtypingFinder)]
     Typechecker.lookup.clear()
@@ -147,8 +165,26 @@ def run_inprocess(d, run):
     old_flag = sys.dont_write_bytecode
     sys.dont_write_bytecode = bool(run.get("dont_write"))  # like python -B: nothing is written, caches are still read
     sys.path.insert(0, d)
+    import importlib._bootstrap_external as _be
+
+    _orig_get_data = _be.FileLoader.get_data
+    ed = run.get("_edit_during")
+    if ed:
+        done = []
+
+        def _get_data(self, path):
+            data = _orig_get_data(self, path)
+            if not done and os.path.basename(path).split(".")[0] == ed["stem"] and os.path.dirname(path).rstrip("/").replace("/__pycache__", "") == os.path.dirname(ed["path"]).rstrip("/"):
+                done.append(1)
+                with open(ed["path"], "w") as f:
+                    f.write(ed["source"])
+                os.utime(ed["path"], (ed["stamp"], ed["stamp"]))
+            return data
+
+        _be.FileLoader.get_data = _get_data
     try:
-        import vf_spy18
+        if not run.get("lazy_spy"):
+            import vf_spy18  # noqa: F401
 
         # a run with checking switched off while the modules are imported (JAXTYPING_DISABLE=1 / config.update); the
         # modules are observed after switching back on: instrumentation does not depend on the switch, only calls do
@@ -175,11 +211,12 @@ def run_inprocess(d, run):
             return {"error": f"after-uninstall import: {type(e).__name__}: {e}"}
         jaxtyping.config.update("jaxtyping_disable", False)
         out = {}
+        spy = sys.modules.get("vf_spy18")
         for name in MODS:
             mod = sys.modules.get(name)
             if mod is None:
                 continue
-            tags = sorted({t for (t, mm, q) in vf_spy18.log if mm == name})
+            tags = sorted({t for (t, mm, q) in (spy.log if spy is not None else []) if mm == name})
             try:
                 mod.f("not-an-int")
                 raises = False
@@ -189,17 +226,21 @@ def run_inprocess(d, run):
                          "version": mod.f(1), "const": mod.VERSION}
         return out
     finally:
+        _be.FileLoader.get_data = _orig_get_data
         jaxtyping.config.update("jaxtyping_disable", False)
         sys.dont_write_bytecode = old_flag
         sys.path.remove(d)
         for name in list(sys.modules):
-            if name.split(".")[0] in ("pa", "pb", "pkg", "vf_spy18"):
+            if name.split(".")[0] in ("pa", "pb", "pkg", "vf_spy18", "ph"):
                 del sys.modules[name]
         sys.meta_path[:] = [f for f in sys.meta_path if not isinstance(f, _JaxtypingFinder)]
 
 
 def model_run(run, versions):
     loaded = {}
+    spy_imported = [not run.get("lazy_spy")]
+    if spy_imported[0]:
+        loaded["ph"] = (None, versions["ph"])  # imported together with the typechecker module, before any hook of the run exists
 
     def imp(m):
         parts = m.split(".")
@@ -215,6 +256,10 @@ def model_run(run, versions):
             loaded[mm] = (st_, versions[mm])
             for dep in DEPS.get(mm, []):
                 imp(dep)
+            if st_ in ("a", "b") and not spy_imported[0]:
+                # decorating mm's function calls the typechecker for the first time: its module is imported now (and imports ph)
+                spy_imported[0] = True
+                imp("ph")
 
     for m in run["order"]:
         if m != BAD:
@@ -263,7 +308,17 @@ def check_history(ctx, hist, mode):
                                 damaged = ever_damaged[0] = True
                                 flags.add("damaged-pyc")
             exp = model_run(run, versions)
+            during = run.get("edit_during")
+            if during and during in exp:
+                # saved while being imported (right after its bytes were read): this run still executes the old version
+                same_size = bool(hist.get("same_size")) and versions[during] + 1 <= 9
+                run = dict(run, _edit_during={"path": os.path.join(d, FILES[during]), "stem": os.path.basename(FILES[during])[:-3], "stamp": stamp + 100,
+                                              "source": source(during, versions[during] + 1, same_size)})
             got = run_subprocess(d, run) if mode == "subprocess" else run_inprocess(d, run)
+            if during and during in exp:
+                versions[during] += 1
+                stamp += 100
+                flags.add("edited-while-being-imported")
             if "error" in got and damaged and any(x in got["error"] for x in ("EOFError", "marshal", "bad marshal data", "ValueError")):
                 # refusing to load a cut-off cache file is what CPython itself does; the history ends here
                 flags.add("damaged-pyc-refused")
@@ -286,6 +341,8 @@ def check_history(ctx, hist, mode):
                     raise Violation("stale-instrumentation", hist,
                                     f"{where}: runs {'plain' if gst is None else 'instrumented/' + str(gst)}, this run's configuration calls for "
                                     f"{'plain' if st_ is None else 'instrumented/' + str(st_)}")
+                if during and m == during and g["version"] == g["const"] == ver + 1:
+                    continue  # saved while being imported: whether this very run already sees the new version depends on what it read last
                 if g["version"] != ver or g["const"] != ver:
                     raise Violation("stale-source", hist, f"{where}: executes source version {g['version']}/{g['const']}, current is {ver}")
         ctx.note([hist, mode], len(hist["runs"]) >= 2 and bool(flags), classes=sorted(flags) + [f"mode-{mode}", f"runs-{len(hist['runs'])}"], sample={"runs": hist["runs"], "mode": mode})
@@ -296,11 +353,13 @@ def check_history(ctx, hist, mode):
 names_st = st.lists(st.sampled_from(MODS + [BAD]), min_size=1, max_size=3, unique=True)
 hook_st = st.tuples(names_st, st.sampled_from(["a", "b", "none", "a"])).map(list)
 run_st = st.fixed_dictionaries({
-    "edit": st.sampled_from([None, None, "pa", "pb", "pkg", "pkg.sub"]),
+    "edit": st.sampled_from([None, None, "pa", "pb", "pkg", "pkg.sub", "ph"]),
     "same_mtime": st.sampled_from([False, False, True]),
     "damage": st.sampled_from([None, None, None, None, "pa", "pb", "pkg.sub"]),
     "dont_write": st.sampled_from([False, False, False, True]),
     "disabled": st.sampled_from([False, False, False, True]),
+    "lazy_spy": st.sampled_from([True, False]),
+    "edit_during": st.sampled_from([None, None, None, "pa", "pb", "pkg.sub", None, "ph"]),
     "hooks": st.lists(hook_st, min_size=0, max_size=2),
     "order": st.lists(st.sampled_from(MODS + [BAD]), min_size=1, max_size=4, unique=True),
     "after": st.lists(st.sampled_from(MODS), max_size=2, unique=True),
